@@ -352,5 +352,24 @@ def main():
         o.write("\n].\n")
     return 0
 
+def run_rs2coq():
+    """(re)build rs2coq (Rust, syn) and regenerate coq/gen/Gen{Stamp,Rel,Alloc,Ops,Trav}.v from the sources"""
+    import shutil, subprocess
+    verif = os.path.dirname(os.path.dirname(os.path.abspath(__file__)))
+    cdir = os.path.join(verif, "rs2coq")
+    lock = os.path.join(cdir, "Cargo.lock")
+    if not os.path.exists(lock):
+        shutil.copy(os.path.join(REPO, "Cargo.lock"), lock)
+    tdir = os.path.join(verif, ".cache", "rs2coq-target")
+    env = dict(os.environ, CARGO_TARGET_DIR=tdir, CARGO_NET_OFFLINE="true")
+    p = subprocess.run(["cargo", "build", "--offline", "--release"], cwd=cdir, env=env, stdout=subprocess.PIPE, stderr=subprocess.STDOUT, text=True)
+    if p.returncode != 0:
+        sys.stderr.write("rs2coq does not build:\n" + p.stdout[-3000:])
+        return 3
+    p = subprocess.run([os.path.join(tdir, "release", "rs2coq"), SRC, OUT], stdout=subprocess.PIPE, stderr=subprocess.STDOUT, text=True)
+    sys.stderr.write(p.stdout)
+    return 0 if p.returncode == 0 else 3
+
 if __name__ == "__main__":
-    sys.exit(main())
+    rc = main()
+    sys.exit(rc or run_rs2coq())
